@@ -7,16 +7,24 @@ prop(
     rule=(
         "block sequences (0..12 blocks) over boundary-dense endpoints {0,1,2,MAX-1,MAX,2^k,2^k+-1,aligned,all-ones,random} for AS numbers, "
         "IPv4 (upper 32 bits convention) and IPv6, arranged sorted / reversed / shuffled / appended with duplicates, overlaps, adjacency, nesting and bridging blocks; "
-        "each sequence goes through one constructor (from_iter with canonical blocks, raw ranges or prefixes, builder, FromStr typed and generic, RFC 3779 DER via three decoder entry points) "
+        "each sequence goes through one constructor: from_iter with canonical blocks, raw ranges or prefixes, builder (push / Extend), or one entry of the entry-point tables written from the pub surface of "
+        "resources/{ipres,asres,set,choice}.rs and src/resources/addr.rs — text: Ipv4Blocks/Ipv6Blocks/IpBlocks/AsBlocks/AsResources::from_str, their serde Deserialize twins, ResourceSet::from_strs and ResourceSet Deserialize (incl. field aliases), "
+        "and the single-block parsers IpBlock::from_str/from_v4_str/from_v6_str, AddressRange/Prefix::from_str/from_v4_str/from_v6_str, Ipv4Block/Ipv6Block::from_str (typed FromIterator), resources::Prefix -> IpBlock, AsBlock::from_str, each followed by a public collector (FromIterator, builder push, builder Extend); "
+        "DER (independent writer): IpBlocks::take_from / take_from_with_family, IpResources::take_from / take_families_from, AsBlocks::take_from, AsResources::take_from, and the single-value decoders IpBlock::take_opt_from / take_opt_from_with_family, "
+        "Prefix::take_from / parse_content / parse_content_with_family, AsBlock::take_opt_from (whole list and item by item) followed by a collector; "
+        "once per batch and flavour one hostile list (generated sequence plus blocks ending at the last / starting at the first element, the whole space, zero-length blocks, and in half of the cases one reversed range) is offered to *every* entry of both tables: rejected, or canonical and (without a reversed range) equal to the model; "
         "and every returned set is checked for canonical form and for equality of denotation with an interval-set model; all ordered pairs inside batches run every set operation, "
         "membership / block / ROA-prefix questions at boundary points, issuance (refuse / trim / inherit / missing), coverage, text / serde / DER round trips, counts and bounded iteration; "
-        "ResourceSet algebra and RequestResourceLimit::apply_to on triples; range-to-prefix decomposition. Additionally every sequence of up to 3 (quick) / 4 (thorough) blocks over the pool {0,1,2,3,4,MAX-1,MAX} is collected (exhaustive sub-space). "
-        "A case signature is (flavour, constructor or operation, size class, arrangement, derived-block tags, touches-0, touches-MAX) or (flavour, pair relation, operand size classes); a pair of two empty sets is trivial."
+        "every public structural encoder of a collection, its wrappers and its blocks (IpBlocks::encode / encode_ref / encode_family, IpResources::encode / encode_ref / encode_family / encode_extension, IpBlock / Prefix / AddressRange::encode, "
+        "AsBlocks::encode / encode_ref, AsResources::encode / encode_ref / encode_extension) is read back with the independent DER reader: the SEQUENCE OF found where RFC 3779 puts it must denote the model and be canonical; "
+        "ResourceSet algebra and RequestResourceLimit::apply_to on triples; range-to-prefix decomposition (into_prefix, IpBlock::from((min,max)), to_v4_prefixes / to_v6_prefixes: ordered, disjoint, aligned, exact cover), half of the ranges ending at the last address of the family, starting at the first, or spanning everything. Additionally every sequence of up to 3 (quick) / 4 (thorough) blocks over the pool {0,1,2,3,4,MAX-1,MAX} is collected (exhaustive sub-space). "
+        "A case signature is (flavour, constructor / entry point or operation, size class, arrangement, derived-block tags, touches-0, touches-MAX), (flavour, entry point, reversed range present, canonical encoding) or (flavour, pair relation, operand size classes); a pair of two empty sets is trivial."
     ),
     exhaustive_scope="only the small-sequence sub-space named in the rule is exhaustive; everything else is sampled",
     assumptions=[
         "programmatically constructed reversed blocks (AsRange::new(5,3)) are precondition violations and are not fed to from_iter",
-        "for text or DER input that is not canonical (unsorted, overlapping, reversed) rejection is accepted; if accepted the result must be canonical (and, for non-reversed input, denote the union)",
+        "for text or DER input that is not canonical (unsorted, overlapping, reversed) rejection is accepted; if accepted the result must be canonical (and, for non-reversed input, denote the union); a canonical DER encoding must be accepted by every decoder",
+        "single blocks obtained from the single-value decoders / parsers are judged after one of the public collectors made a collection of them (the statement is about collections); a range-to-prefix cover that is exact but longer than the minimal one is only counted",
         "asn_count is compared only when the count fits u32",
         "the interval-set model (harness/src/model.rs) and the independent DER reader/writer are trusted",
     ],
